@@ -22,6 +22,8 @@ ASSUMPTIONS = [
     '(is_perm, same_index_set, label_order_ok); with them the model recomputes the ORDERED learning and testing data',
     'floats as exact rationals; positions compared within 1e-9; calls with a scaled coordinate within 1e-9 of 0.0049/0.9951 are skipped as ambiguous; '
     'splits whose size product n*p is within 1e-9 of a half-integer for a non-dyadic p are skipped as ambiguous',
+    'argument objects: the numpy arrays handed to DataSet are re-used across the calls of a history (same objects, views of one parent, several layouts) and must never be modified; '
+    'expected values and model inputs come from pristine copies taken when the arrays were created',
     'exact ties of the maximal density are judged "any maximal class" by the oracle (the model takes the first, as numpy.argmax)',
     'one_vs_others only with labels 0..k-1 (the code indexes class counts by label); modified_basis=True is excluded (AssertionError "not yet implemented")',
 ]
@@ -31,6 +33,10 @@ LO, HI, LO_CUT, HI_CUT = 0.005, 0.995, 0.0049, 0.9951
 # label sets whose CPython set iteration order is NOT ascending (or depends on the insertion order), plus large values
 ODD_LABEL_SETS = [[1, 8], [8, 1], [3, 10], [5, 16], [7, 32], [2, 9, 17], [8, 0], [0, 8], [16, 0, 8], [9, 1, 17], [1000, 1], [3, 100],
                   [2 ** 31, 1], [2 ** 40 + 3, 5, 64], [15, 7, 23, 31], [6, 14, 22, 30], [33, 1, 65, 2], [24, 8, 16], [11, 3]]
+# layouts of the numpy arrays a history hands to DataSet: a row slice of a larger C array, Fortran order, float32 samples, every second row of a
+# parent, a column block of a wider parent, int32 labels.  (cfg['parent_array']: ALL arrays of a history, the learning data included, are
+# row slices of ONE parent array.)
+ARRAY_LAYOUTS = ['slice', 'F', 'f32', 'strided', 'colslice', 'i32labels']
 PERCENTAGES = [1.0, 0.5, 0.75, 0.8, 0.8, 0.9, 0.7, 0.625, 0.875, 0.25, 1, 0.0, 1.5]
 
 
@@ -122,7 +128,7 @@ def gen_case(rng, tier, idx, big=False):
                dw=dict(rebalancing=rng.random() < 0.3, boundary=rng.random() < 0.2, numeric_calculation=False,   # True: a single learning run takes minutes (excluded; it only changes the densities, which are model inputs)
                       
                        margin=rng.choice([0.5, 0.5, 0.9]), tolerance=rng.choice([0.01, 0.01, 0.2]), use_relative_surplus=rng.random() < 0.8),
-               decoy_before_learning=rng.random() < 0.08, call_before_learning=rng.random() < 0.1, print_tests=rng.random() < 0.15)
+               parent_array=rng.random() < 0.25, decoy_before_learning=rng.random() < 0.08, call_before_learning=rng.random() < 0.1, print_tests=rng.random() < 0.15)
     data_range = None
     r = rng.random()
     cmin = [min(p[t] for p in X) for t in range(dim)]
@@ -157,9 +163,15 @@ def gen_case(rng, tier, idx, big=False):
             ops.append(['tamper'])
             continue
         kind = 'call' if rng.random() < 0.5 else 'test'
-        prev = [j for j, o in enumerate(ops) if o[0] in ('call', 'test') and o[3] != 'reuse' and o[1]]
+        prev = [j for j, o in enumerate(ops) if o[0] in ('call', 'test') and o[3] not in ('reuse', 'rewrap') and o[1]]
         if prev and rng.random() < 0.12:
             ops.append([kind, rng.choice(prev), None, 'reuse'])        # the SAME DataSet object as in an earlier call
+            continue
+        if prev and rng.random() < 0.25:
+            ops.append([kind, rng.choice(prev), None, 'rewrap'])       # the SAME numpy arrays as in an earlier call, wrapped in a NEW DataSet
+            continue
+        if prev and rng.random() < 0.07:
+            ops.append(['other', rng.choice(prev)])                    # the same numpy arrays handed to a SECOND classifier
             continue
         m = rng.randrange(1030, 1400) if big and not ops else (rng.randrange(60, 300) if big else rng.randrange(1, 9))
         flavour = rng.choices(['inside', 'partly', 'outside', 'unlabelled', 'empty', 'prescaled', 'edge'], [40, 25, 8, 8, 3, 4, 12])[0]
@@ -177,7 +189,12 @@ def gen_case(rng, tier, idx, big=False):
             L.append(l)
         if flavour == 'empty':
             P, L = [], []
-        ops.append([kind, P, L, flavour])
+        op = [kind, P, L, flavour]
+        if P and kind == 'call' and flavour != 'prescaled' and rng.random() < 0.15:
+            op = [kind, P, [-1] * len(P), flavour, 'nolabels']         # DataSet(X): a bare sample array, no label array
+        elif P and rng.random() < 0.3:
+            op.append(rng.choice(ARRAY_LAYOUTS))                       # how the numpy arrays handed to DataSet are laid out
+        ops.append(op)
     return dict(seed=rng.randrange(1 << 30), X=X, y=y, labels=labels, cfg=cfg, data_range=data_range, ops=ops,
                 kind='big' if big else 'random', label_axis=label_axis)
 
@@ -189,6 +206,52 @@ def _mk(X, y):
     if not X:
         return DataSet((np.array([]), np.array([], dtype=np.int64)))
     return DataSet((np.array(X, dtype=np.float64).reshape(len(X), len(X[0])), np.array(y, dtype=np.int64)))
+
+
+def _arrays(P, L, layout, dim):
+    """numpy arrays for DataSet((X, y)) in the requested memory layout; returns (X, y, parents) - parents are the arrays X / y are views of"""
+    import numpy as np
+    m = len(P)
+    Xc = np.array(P, dtype=np.float64).reshape(m, dim)
+    yc = np.array(L, dtype=np.int64)
+    if layout == 'slice':
+        px = np.full((m + 5, dim), 77.25); px[2:2 + m] = Xc
+        py = np.zeros(m + 5, dtype=np.int64); py[2:2 + m] = yc
+        return px[2:2 + m], py[2:2 + m], [px, py]
+    if layout == 'F':
+        return np.asfortranarray(Xc), yc, []
+    if layout == 'f32':
+        return Xc.astype(np.float32), yc, []
+    if layout == 'strided':
+        px = np.full((2 * m, dim), -55.5); px[::2] = Xc
+        return px[::2], yc, [px]
+    if layout == 'colslice':
+        px = np.full((m, dim + 2), 33.125); px[:, 1:1 + dim] = Xc
+        return px[:, 1:1 + dim], yc, [px]
+    if layout == 'i32labels':
+        return Xc, (yc.astype(np.int32) if all(-2 ** 31 <= int(v) < 2 ** 31 for v in yc) else yc), []
+    return Xc, yc, []
+
+
+class _Args:
+    """every array object a history hands to the library, with a pristine copy (truth) and the last seen content (change detection)"""
+
+    def __init__(self):
+        self.items = []          # [name, array, pristine copy, last seen copy]
+
+    def add(self, name, arr):
+        self.items.append([name, arr, arr.copy(), arr.copy()])
+
+    def changed(self):
+        import numpy as np
+        out = []
+        for it in self.items:
+            name, arr, first, last = it
+            if arr.dtype != last.dtype or arr.shape != last.shape or not np.array_equal(arr, last):
+                n = int(np.sum(arr != last)) if arr.shape == last.shape else -1
+                out.append((name, n, arr.shape == first.shape and bool(np.array_equal(arr, first))))
+                it[3] = arr.copy()
+        return out
 
 
 def _dens(classificators, pts):
@@ -275,16 +338,47 @@ def impl_run(case):
     np.random.seed(case['seed'] % (2 ** 32))
     cfg = case['cfg']
     dim = len(case['X'][0])
+    from sparseSpACE.DEMachineLearning import DataSet
     out = dict(viol=[], ops=[], dim=dim)
-    data = _mk(case['X'], case['y'])
+    args = _Args()
+    nl = len(case['X'])
+    parent = None
+    if cfg.get('parent_array'):
+        # ONE parent array for the whole history: the learning samples first, then the points of every later call (row slices = views)
+        blocks = [(None, case['X'], case['y'])] + [(j, o[1], o[2]) for j, o in enumerate(case['ops'])
+                                                   if o[0] in ('call', 'test') and o[3] not in ('reuse', 'rewrap', 'prescaled') and o[1] and len(o) == 4]
+        PX = np.array([p for _, P_, _ in blocks for p in P_], dtype=np.float64).reshape(-1, dim)
+        PY = np.array([l for _, _, L_ in blocks for l in L_], dtype=np.int64)
+        args.add('parent sample array', PX); args.add('parent label array', PY)
+        parent, a = {}, 0
+        for j, P_, _ in blocks:
+            parent[j] = (PX[a:a + len(P_)], PY[a:a + len(P_)])
+            a += len(P_)
+        Xl, yl = parent[None]
+    else:
+        Xl, yl = np.array(case['X'], dtype=np.float64).reshape(nl, dim), np.array(case['y'], dtype=np.int64)
+    args.add('learning sample array', Xl); args.add('learning label array', yl)
+    data = DataSet((Xl, yl))
     rg = case.get('data_range')
+    rga = (np.array(rg[0]), np.array(rg[1])) if rg else None
+    if rga:
+        args.add('data_range[0]', rga[0]); args.add('data_range[1]', rga[1])
+
+    def check_args(where, call):
+        for name, ncells, restored in args.changed():
+            where.append(dict(kind='argument-mutated', sig=dict(argument=name.split(' of ')[0], call=call),
+                              why='%s modified the %s it was handed (%d cells changed): a caller who wraps the same array again gets '
+                                  'other samples than they passed' % (call, name, ncells)))
+
     st0 = np.random.get_state()
     try:
-        clf = Classification(data, data_range=(np.array(rg[0]), np.array(rg[1])) if rg else None,
+        clf = Classification(data, data_range=rga,
                              split_percentage=cfg['split_percentage'], split_evenly=cfg['split_evenly'], shuffle_data=cfg['shuffle'], **_silent())
     except ValueError as e:
         out['init'] = dict(exc=(type(e).__name__, str(e)[:100]))
+        check_args(out['viol'], 'Classification.__init__')
         return out
+    check_args(out['viol'], 'Classification.__init__')
     mn0 = [float(v) for v in clf.get_dataset_range()[0]]
     mx0 = [float(v) for v in clf.get_dataset_range()[1]]
     fac0 = [float(v) for v in clf.get_scale_factor()]
@@ -358,6 +452,7 @@ def impl_run(case):
         out['learn_exc'] = (type(e).__name__, str(e)[:200])
         return out
     out['learn_exc'] = None
+    check_args(out['viol'], 'perform_classification')
     cls, des = clf.get_density_estimation_results()
     cls = list(cls)
     out['nclass'] = len(cls)
@@ -403,9 +498,50 @@ def impl_run(case):
     prev_calc = list(calc)
     prev_test = [list(out['init']['test'][0]), list(out['init']['test'][1])]
     objs = {}
+    held = {}            # op index -> (X array, y array, pristine samples, pristine labels)
+    clf2 = [None]
     for jop, op in enumerate(case['ops']):
+        if out['ops']:
+            check_args(out['ops'][-1]['viol'], out['ops'][-1]['op'])
         ent = dict(op=op[0], viol=[], exc=None)
         out['ops'].append(ent)
+        if op[0] == 'other':
+            # the arrays of an earlier call handed to a SECOND classifier (same learning data, own object): same positions expected, ours untouched
+            h = held.get(op[1])
+            if h is None:
+                ent['skipped'] = 1
+                ent['calc'] = list(prev_calc)
+                continue
+            try:
+                if clf2[0] is None:
+                    st_ = np.random.get_state()
+                    c2 = Classification(_mk(case['X'], case['y']), split_percentage=1.0, shuffle_data=False, **_silent())
+                    c2.perform_classification(masslumping=True, minimum_level=1, maximum_level=2, print_metrics=False)
+                    np.random.set_state(st_)
+                    clf2[0] = c2
+                c2 = clf2[0]
+                mn2 = [float(v) for v in c2.get_dataset_range()[0]]; fc2 = [float(v) for v in c2.get_scale_factor()]
+                pos2 = [[(x[j] - mn2[j]) * fc2[j] + LO for j in range(dim)] for x in h[2]]
+                keep2 = [p for p in pos2 if all(LO_CUT <= v <= HI_CUT for v in p)]
+                amb2 = any(abs(v - LO_CUT) < 1e-9 or abs(v - HI_CUT) < 1e-9 for p in pos2 for v in p)
+                try:
+                    r2 = c18.snap(c2(DataSet((h[0], h[1])), print_removed=False))[0]
+                except CaseTimeout:
+                    raise
+                except Exception as e:
+                    ent['exc'] = (type(e).__name__, str(e)[:100])
+                    r2 = []
+                if not amb2 and (len(r2) != len(keep2) or any(not _close(a, b) for u, w in zip(r2, keep2) for a, b in zip(u, w))):
+                    ent['viol'].append(dict(kind='scaling-or-filter-wrong', sig=dict(call='second classifier'),
+                                            why='a second classifier evaluated the arrays of call %d at %r, expected %r' % (op[1], r2[:4], keep2[:4])))
+            except CaseTimeout:
+                raise
+            except Exception as e:
+                ent['exc'] = (type(e).__name__, str(e)[:100])
+            ent['calc'] = [int(c) for c in clf.get_calculated_classes_testset()]
+            if ent['calc'] != prev_calc:
+                ent['viol'].append(dict(kind='earlier-classes-changed', sig=dict(call='other-classifier'), why='another Classification object changed our calculated classes'))
+            continue
         if op[0] == 'decoy':
             _decoy(op[1], dim)
             ent['calc'] = [int(c) for c in clf.get_calculated_classes_testset()]
@@ -507,12 +643,37 @@ def impl_run(case):
                 ent['skipped'] = 1
                 ent['calc'] = list(prev_calc)
                 continue
-        else:
+        elif flavour == 'rewrap':
+            h = held.get(op[1])
+            if h is None:
+                ent['skipped'] = 1
+                ent['calc'] = list(prev_calc)
+                continue
+            d = DataSet((h[0], h[1]))                 # the same numpy array objects, a new DataSet
+            held[jop] = h
+            ent['array'] = 'rewrap'
+        elif not op[1]:
             d = _mk(op[1], op[2])
-            if flavour == 'prescaled' and op[1]:
+            ent['array'] = 'empty'
+        else:
+            if parent is not None and jop in parent:
+                Xa, ya, pars = parent[jop][0], parent[jop][1], []
+                ent['array'] = 'parent-slice'
+            else:
+                Xa, ya, pars = _arrays(op[1], op[2], op[4] if len(op) > 4 else None, dim)
+                ent['array'] = op[4] if len(op) > 4 else 'fresh'
+                args.add('sample array of call %d' % jop, Xa); args.add('label array of call %d' % jop, ya)
+                for pa in pars:
+                    args.add('parent array of call %d' % jop, pa)
+            held[jop] = (Xa, ya, [[float(v) for v in r_] for r_ in Xa.copy()], [int(v) for v in ya.copy()])
+            d = DataSet(Xa) if ent['array'] == 'nolabels' else DataSet((Xa, ya))
+            if flavour == 'prescaled':
                 d.scale_range((LO, HI))
         objs[jop] = d
         raw = c18.snap(d)
+        if flavour not in ('reuse', 'prescaled') and jop in held:
+            # what the caller passed: the PRISTINE content of the arrays (truth for the oracle and the model), whatever the arrays hold by now
+            raw = [held[jop][2], held[jop][3]] + raw[2:]
         ent['raw'] = raw
         P, L = raw[0], raw[1]
         # expected positions / filter in the scaling fixed at learning time (oracle's own computation)
@@ -568,6 +729,15 @@ def impl_run(case):
                     ent['viol'].append(dict(kind='call-changes-bookkeeping', sig={}, why='__call__ changed the calculated classes of the testing data'))
                 if tsn[0] != prev_test[0] or tsn[1] != prev_test[1]:
                     ent['viol'].append(dict(kind='testing-data-changed', sig=dict(call='__call__'), why='__call__ changed the testing data'))
+                if jop % 2 == 0 and flavour not in ('reuse',) and not any(len(o) > 3 and o[3] == 'reuse' and o[1] == jop for o in case['ops']):
+                    # the returned data set belongs to the caller: overwrite its arrays - nothing held by the classifier may change (checked by the
+                    # following calls: testing data, calculated classes, argument arrays)
+                    try:
+                        res.get_data()[0][...] = -1.0
+                        res.get_data()[1][...] = -3
+                        ent['result_overwritten'] = 1
+                    except Exception:
+                        pass
             else:
                 used = [(r, l) for r, l in zip(after[0], after[1]) if l >= 0]
                 newc = ent['calc'][len(prev_calc):]
@@ -597,6 +767,8 @@ def impl_run(case):
                                         why='a raising %s changed the calculated classes (%d -> %d)' % (op[0], len(prev_calc), len(ent['calc']))))
         prev_calc = ent['calc']
         prev_test = [tsn[0], tsn[1]]
+    if out['ops']:
+        check_args(out['ops'][-1]['viol'], out['ops'][-1]['op'])
     return out
 
 
@@ -631,7 +803,7 @@ def model_case(case, r, variant):
     rg = case.get('data_range')
     ops = []
     for op, ent in zip(case['ops'], r['ops']):
-        if op[0] in ('decoy', 'relearn', 'tamper') or ent.get('skipped'):
+        if op[0] in ('decoy', 'relearn', 'tamper', 'other') or ent.get('skipped'):
             continue
         if op[0] == 'evaluate':
             ops.append([3])
@@ -649,7 +821,7 @@ def model_case(case, r, variant):
 
 def model_ops_index(case, r):
     """indices of the ops that are sent to the model, in order"""
-    return [j for j, (op, ent) in enumerate(zip(case['ops'], r['ops'])) if not (op[0] in ('decoy', 'relearn', 'tamper') or ent.get('skipped'))]
+    return [j for j, (op, ent) in enumerate(zip(case['ops'], r['ops'])) if not (op[0] in ('decoy', 'relearn', 'tamper', 'other') or ent.get('skipped'))]
 
 
 def msorted(s):
@@ -756,6 +928,16 @@ def confirm_in_fresh_processes(chk, cases, impl, max_confirm=24):
     return impl, leaks
 
 
+# one numpy array object wrapped in DataSets again and again (and handed to a second classifier): evaluate, test, evaluate the same samples
+_PTS = [[0.25, 0.25], [2.0, 1.75], [0.125, 0.5], [2.25, 2.0], [9.0, 9.0]]
+CORPUS.append(dict(seed=9, kind='corpus', name='same-arrays-wrapped-again', labels=[3, 10], X=[[x + 4.0, y - 2.0] for x, y in _X10], y=_two(3, 10), data_range=None,
+                   cfg=dict(_CFG), ops=[['call', [[x + 4.0, y - 2.0] for x, y in _PTS], [3, 10, 3, 10, 3], 'partly'], ['test', 0, None, 'rewrap'],
+                                        ['call', 0, None, 'rewrap'], ['other', 0], ['call', 0, None, 'rewrap'], ['evaluate']]))
+CORPUS.append(dict(seed=10, kind='corpus', name='slices-of-one-parent-array', labels=[0, 1], X=[[x - 3.0, y + 5.0] for x, y in _X10], y=_two(0, 1), data_range=None,
+                   cfg=dict(_CFG, parent_array=True, split_percentage=1.0),
+                   ops=[['test', [[x - 3.0, y + 5.0] for x, y in _PTS[:4]], [0, 1, 0, 1], 'inside'], ['call', 0, None, 'rewrap'],
+                        ['call', [[x - 3.0, y + 5.0] for x, y in _PTS[:2]], [0, 1], 'inside', 'f32'], ['test', 2, None, 'rewrap'], ['evaluate']]))
+
 # exemplar of the finding about test_data(print_output=True, print_incorrect_points=True) with classless samples in the tested data
 PRINT_CASE = dict(seed=8, kind='corpus', name='test-data-print-incorrect-points', labels=[0, 1], X=_X10, y=_two(0, 1), data_range=None,
                   cfg=dict(_CFG, split_percentage=1.0, print_tests=True),
@@ -809,6 +991,8 @@ def judge(chk, cases, impl, variant):
         for flag in ('one_vs_others', 'reuse_old_values', 'pre_scaled_data', 'masslumping', 'decoy_before_learning', 'call_before_learning', 'print_tests'):
             if cfg.get(flag):
                 chk.count('option:%s' % flag)
+        if cfg.get('parent_array'):
+            chk.count('option:parent_array')
         chk.count('option:lambd=%r' % cfg['lambd'])
         if cfg['learner'] == 'dw':
             for k_, v_ in sorted(cfg.get('dw', {}).items()):
@@ -821,6 +1005,8 @@ def judge(chk, cases, impl, variant):
         for j, ent in enumerate(r['ops']):
             o = c['ops'][j]
             chk.count('op=%s' % ent['op'] + ('/' + o[3] if ent['op'] in ('call', 'test') else ''))
+            if ent.get('array'):
+                chk.count('array=' + ent['array'])
             if ent['op'] in ('call', 'test') and ent.get('raw'):
                 nn = len(ent['raw'][0])
                 chk.count('call-size=%s' % ('0' if nn == 0 else '1-8' if nn <= 8 else '9-300' if nn <= 300 else '>1000' if nn > 1000 else '301-1000'))
